@@ -185,9 +185,9 @@ def run(ctx):
                  '%s is reachable without the any_cancels() test being '
                  'false' % U.call_name(c), ctx.loc(cc, c))
     ac = prog.func('mistral.workflow.base.WorkflowController.any_cancels')
-    txt = ' '.join(ast.unparse(ac.node).split())
-    r3.check('state=states.CANCELLED' in txt and
-             'workflow_execution_id=self.wf_ex.id' in txt and '> 0' in txt,
+    r3.check(U.phas(ac.node, '___.get_task_executions_count('
+                    'workflow_execution_id=self.wf_ex.id, '
+                    'state=states.CANCELLED) > 0'),
              ctx.construct(ac), 'any_cancels no longer counts CANCELLED '
              'tasks of this execution', ctx.loc(ac))
 
